@@ -49,7 +49,9 @@ CLAIMS["C09"] = (
     "update() rejects too-old samples before any mutation, window() clamps, checks emptiness and "
     "fills gaps before returning, MovingWindow.at range-checks both ends (exact forms) before "
     "every buffer read; (GAP) every gap recorded by update() starts no later than the first "
-    "unwritten slot and _fill_gaps writes only inside [0, len(window)]. It does NOT decide the consistency of the incrementally maintained gap list / "
+    "unwritten slot and _fill_gaps writes only inside [0, len(window)]; MovingWindow.at reads the raw storage "
+    "only for a slot established to lie outside every gap; slot counts divide durations exactly (no floored "
+    "float quotient). It does NOT decide the consistency of the incrementally maintained gap list / "
     "count_valid with the data over all histories (an inductive data-structure invariant).",
     "Trusted: aligned ± k·period is aligned; the qualifier rules in sa/props/c09.py; statement-"
     "granular CFG.",
@@ -221,8 +223,9 @@ CLAIMS["C06"] = (
     "is fixed; the first-run synchronisation drains every stream of every lagging group up to the "
     "latest first timestamp, errors on overshoot and clears the flag only at the end; the fallback "
     "synchronisation never returns a sample from another timestamp; the three-phase zip receives "
-    "one sample per phase per round. Behaviour under receiver overflow and alignment of the three "
-    "per-phase engines under lag are not decided.",
+    "every phase each round and drains the phases that are behind max(the three timestamps) before it "
+    "builds the sample from the three (then equally stamped) samples. Behaviour under receiver overflow is "
+    "not decided.",
     "Trusted: once aligned, synchronous input streams stay aligned under one-receive-per-round; "
     "cooperative scheduling.",
     "DESIGN.md §2 C06")
@@ -235,8 +238,11 @@ CLAIMS["C19"] = (
     "is guarded by a handler that names a catchable class (two documented terminal sites); the "
     "fallback is started lazily, only when not running and the primary is invalid by the shared "
     "predicate or failed; the fallback synchronisation keeps every sample it reads, tests 'primary "
-    "older' on every call and advances only the fallback; the fallback receiver has the default "
-    "capacity. The length of the start-up delay is not decided.",
+    "older' on every call and advances only the fallback; a sample read straight from the fallback stream "
+    "reaches a round only on a path that consulted the synchronisation state or compared a timestamp, or the "
+    "consumer (FormulaEvaluator.apply) re-aligns whenever its inputs' timestamps differ; the fallback formula "
+    "reads the term's own metric and the fallback selection agrees with the component graph's meter "
+    "definitions; the fallback receiver has the default capacity. The length of the start-up delay is not decided.",
     "Trusted: Python evaluates an except clause's expression only when an exception reaches it; "
     "frequenz.channels ReceiverError hierarchy.",
     "DESIGN.md §2 C19")
@@ -287,7 +293,9 @@ CLAIMS["C17"] = (
     "whole group; the calculator's positional metric tables agree with the PowerBounds fields; and "
     "for every weak ordering of the symbolic power and bounds consistent with those relations, "
     "SystemBounds.__contains__(P) and P != 0 imply that _check_request admits P for both adjust "
-    "modes (exhaustive). Equality of the run-time data of the two sides is assumed by the property.",
+    "modes (exhaustive); and every float reduction that feeds a bound on either side (and in the shared battery "
+    "aggregation) is the exactly rounded, order-independent math.fsum, so that the two sides arrive at the same "
+    "float. Equality of the run-time data of the two sides is assumed by the property.",
     "Trusted: the lattice lemmas listed in the evidence; interpreter semantics; is_close_to_zero read "
     "as equality with zero.",
     "DESIGN.md §2 C17")
@@ -405,9 +413,11 @@ def build() -> dict:
         "not_applicable": na,
         "notes": "All checks parse /repo's current working tree on every run (stdlib ast under "
                  "/venv/bin/python). Exit 0 held / 1 VIOLATION / 2 ANALYSIS-ERROR (fail closed). "
-                 "Known findings: known_findings.json. Seeded defects used to test the checkers: "
-                 "seeded/ (120, each replayed on /repo itself: tools/replay_in_repo.py). Behaviour-preserving "
-                 "refactorings the checks must stay silent on: benign/. Three-way self-test (silent / firing / "
+                 "Known findings: known_findings.json (F1-F15, F18 fixed by `fix:` commits in /repo; F16 (C10) and F17 (C02) "
+                 "recorded, not repaired: their checks print a KNOWN-FINDING line and exit 0). Seeded defects used to "
+                 "test the checkers: seeded/ (four rounds by independent sub-agents plus the reverse patch of every "
+                 "repair; seeded_retired/ holds a change that stopped being a defect after a repair). Behaviour-preserving "
+                 "refactorings the checks must stay silent on: benign/ (five corpora). Three-way self-test (silent / firing / "
                  "quiet): ./check selftest.",
     }
 
